@@ -215,12 +215,16 @@ func NewSSet() SSet {
 }
 
 func SSetHasKey(st SSet, key string) bool {
-	_, ok := frt.Destr2(dict.TryFind(st.Dict, key))
-	return ok
+	v, ok := frt.Destr2(dict.TryFind(st.Dict, key))
+	return (ok && v)
 }
 
 func SSetPut(st SSet, key string) {
 	dict.Add(st.Dict, key, true)
+}
+
+func SSetRemove(st SSet, key string) {
+	dict.Add(st.Dict, key, false)
 }
 
 func collectTVarFTypeWithSet(visited SSet, ft FType) []string {
@@ -255,11 +259,13 @@ func collectTVarFTypeWithSet(visited SSet, ft FType) []string {
 			return slice.New[string]()
 		}), (func() []string {
 			SSetPut(visited, uname)
-			return frt.Pipe(frt.Pipe(utCases(ut), (func(_r0 []NameTypePair) []FType {
+			res := frt.Pipe(frt.Pipe(utCases(ut), (func(_r0 []NameTypePair) []FType {
 				return slice.Map(func(_v2 NameTypePair) FType {
 					return _v2.Ftype
 				}, _r0)
 			})), (func(_r0 []FType) []string { return slice.Collect(recurse, _r0) }))
+			SSetRemove(visited, uname)
+			return res
 		}))
 	case FType_FFunc:
 		fnt := _v9.Value
@@ -468,6 +474,7 @@ func transTVFTypeWithSet(visited SSet, transTV func(TypeVar) FType, ftp FType) F
 					return newNTPair(frt.Fst(tp), frt.Snd(tp))
 				}, _r0)
 			}))
+			SSetRemove(visited, uname)
 			ntargs := slice.Map(recurse, ut.Targs)
 			nut := UnionType{Name: ut.Name, Targs: ntargs}
 			nui := UnionTypeInfo{Cases: ncases}
